@@ -120,7 +120,10 @@ func (c *FileCache) Close(file *os.File) error {
 		return nil
 	}
 
-	if elem, ok := c.cache[name]; ok {
+	// The cache may hold a different File with the same name, if this file was
+	// opened while the cache was disabled. Only the cached file itself is
+	// reference counted.
+	if elem, ok := c.cache[name]; ok && elem.Value.(*entry).file == file {
 		ent := elem.Value.(*entry)
 		if ent.refs == 0 {
 			return &os.PathError{Op: "close", Path: name, Err: os.ErrClosed}
